@@ -1,30 +1,38 @@
 #!/venv/bin/python
-"""Print a markdown table of the seeded changes from seeded/MATRIX.json (tools/matrix.py) and each seed's notes.md."""
+"""Print a markdown table of the seeded changes: own-property verdict from seeded/SWEEP.json (tools/sweep.py --json),
+cross-property detections from seeded/MATRIX.json (tools/matrix.py) when it covers the seed."""
 import glob, json, os, re
 here = os.path.dirname(os.path.dirname(os.path.abspath(__file__)))
-M = json.load(open(os.path.join(here, "seeded", "MATRIX.json")))
+def load(p):
+    try:
+        return json.load(open(os.path.join(here, "seeded", p)))
+    except Exception:
+        return {}
+S = load("SWEEP.json").get("seed", {})
+M = load("MATRIX.json")
 rows = []
 for m in sorted(glob.glob(os.path.join(here, "seeded", "*", "meta.json"))):
     d = json.load(open(m))
-    name = d["name"]
+    name, own = d["name"], d["breaks_property"]
     notes = os.path.join(os.path.dirname(m), "notes.md")
     first = ""
     if os.path.exists(notes):
         for ln in open(notes):
             ln = ln.strip()
             if ln and not ln.startswith("#"):
-                first = re.sub(r"[`*|]", "", ln)[:100]
+                first = re.sub(r"[`*|]", "", ln)[:90]
                 break
-    fired = M.get(name, {}).get("fired", {})
-    own = d["breaks_property"]
-    det = [p for p, v in sorted(fired.items()) if v["rc"] == 1 and v["rules"]]
-    det = ([own] if own in det else []) + [p for p in det if p != own]
-    gaps = [p for p, v in sorted(fired.items()) if v["rc"] == 2]
-    rules = ", ".join(fired.get(own, {}).get("rules", [])[:4])
-    cell = ", ".join(det) or ("- (harmless on HEAD)" if d.get("valid_on_head") is False else "-")
-    if gaps:
-        cell += f" (gap: {', '.join(gaps)})"
-    rows.append(f"| {name} | {own} | {first} | {cell} | {rules} |")
-print("| seed | breaks | change (first line of its notes) | detected by (own property first) | own-property rules that fired |")
-print("|---|---|---|---|---|")
+    sw = S.get(name, {}).get(own)
+    if sw is None:
+        verdict, rules = "?", ""
+    elif sw["rc"] == 1 and sw["rules"]:
+        verdict, rules = "VIOLATION", ", ".join(sw["rules"][:4])
+    elif sw["rc"] == 2:
+        verdict, rules = "analysis gap", ""
+    else:
+        verdict, rules = "**not detected**" if not d.get("valid_on_head") is False else "harmless on HEAD", ""
+    others = sorted(p for p, v in M.get(name, {}).get("fired", {}).items() if p != own and v["rc"] == 1 and v["rules"])
+    rows.append(f"| {name} | {own} | {first} | {verdict} | {rules} | {', '.join(others)} |")
+print("| seed | breaks | change (first line of its notes) | own check | rules | also reported by |")
+print("|---|---|---|---|---|---|")
 print("\n".join(rows))
